@@ -1240,14 +1240,14 @@ def _to_vec(M, a, info):
     return RVec([M.clone(x) for x in lst])
 
 
-@model('slice::last', 'Vec::last')
+@model('slice::last', 'Vec::last', 'slice::last_mut', 'Vec::last_mut')
 def _slice_last(M, a, info):
     s = a[0]
     if type(s) is Ptr: s = _deref(M, [s], info)
     return SOME(Ptr(s.items, s.end - 1)) if s.end > s.start else NONE()
 
 
-@model('slice::first', 'Vec::first')
+@model('slice::first', 'Vec::first', 'slice::first_mut', 'Vec::first_mut')
 def _slice_first(M, a, info):
     s = a[0]
     if type(s) is Ptr: s = _deref(M, [s], info)
